@@ -311,9 +311,12 @@ def chanRollapp (s : St) (c : Nat) : M (Option Bytes) :=
       | none => .error .internal
       | some ra => if ch.canonical then .ok (some ra.id) else .error .badChannel
 
+def logEntry (s : St) (p : Packet) (ra : Option Bytes) (viaFin : Bool) : LogE :=
+  { ptype := p.ptype, chan := p.chan, seq := p.seq, delayedRa := ra, proofHeight := p.proofHeight,
+    finAt := (match ra with | some r => finHeight s r | none => none), viaFinalize := viaFin }
+
 def logRelease (s : St) (p : Packet) (ra : Option Bytes) (viaFin : Bool) : St :=
-  { s with log := s.log ++ [{ ptype := p.ptype, chan := p.chan, seq := p.seq, delayedRa := ra, proofHeight := p.proofHeight,
-                              finAt := (match ra with | some r => finHeight s r | none => none), viaFinalize := viaFin }] }
+  { s with log := s.log ++ [logEntry s p ra viaFin] }
 
 -- ---------------------------------------------------------------- eIBC order creation (x/eibc/keeper/handler.go)
 
